@@ -101,7 +101,15 @@ auto dr_numerical(auto && f, auto && x)
 
           const Eigen::Matrix<Scalar, Ny, 1> d1 = rminus(F10, fval);
 
-          J.col(I0 + k0) = d1 / eps0;
+          // first derivative with the first-order step size (eps0 is too coarse for it)
+          Scalar epsJ = eps;
+          if constexpr (std::is_base_of_v<Eigen::MatrixBase<W0>, W0>) {
+            epsJ *= abs(w0[k0]);
+            if (epsJ == 0.) { epsJ = eps; }
+          }
+          w0             = rplus<W0>(w0, epsJ * Eigen::Vector<Scalar, Nx_i0>::Unit(nx_i0, k0));
+          J.col(I0 + k0) = rminus<Result>(std::apply(f, x_nc), fval) / epsJ;
+          w0             = rplus<W0>(w0, -epsJ * Eigen::Vector<Scalar, Nx_i0>::Unit(nx_i0, k0));
 
           for (auto k1 = 0; k1 < nx_i1; ++k1) {
             Scalar eps1 = sqrteps;
